@@ -40,7 +40,7 @@ ASSUMPTIONS = [
     "C units the front end rejects or crashes on are discarded (C28 judges the front ends)",
 ]
 TRUSTED = ["CPython", "Hypothesis", "vf/genir.py", "vf/gencc.py", "vf/cgstage.py (class measurement and restriction)"]
-REGISTER = False
+REGISTER = True
 TECHNIQUE = "crash oracle on optimize + ir_to_object over generated IR restricted to front-end-emittable instruction classes and over front-end modules, five targets x four levels"
 LEVEL_TEXT = (
     "Exploration with a crash oracle: generated modules that stay inside the operator/type/operand classes ppci's own "
